@@ -48,37 +48,37 @@ pub fn meta(prop: &str) -> Option<Meta> {
             level: "exploration",
             rule: "histories = vec(op seed, 0..=80) resolved against the reference model (construction, no rejection) + drain epilogue; oracle = invariant over the call history (removals only at a first read; removed vertices bind-linked, bound, not unread). Non-trivial: some call removed a vertex while another present vertex had to survive. Distinct = distinct hash of (N, capacity, concrete call list).",
             assumptions: gc_assume,
-            subs: vec![Sub { id: "gcmodel", quick: 64_000, thorough: 3_200_000 }],
+            subs: vec![Sub { id: "gcmodel", quick: 64_000, thorough: 3_200_000 }, Sub { id: "gcmodel-fast", quick: 0, thorough: 800_000 }],
         },
         "C02" => Meta {
             level: "exploration",
             rule: "same generator as C01 (profiles gc-orders, overwrite, readd, limit-edge); oracle = keys() equals the alive set of the reference model after every call, no in-limit panic of add/bind/put/data, through the drain epilogue (every free group slot probed simultaneously). Non-trivial: a group died and the history has put-before-bind carried into a group, an overwrite of an unread datum, a put after a read, a re-add of a grouped vertex, a group with >=2 unread data, or >=2 groups died.",
             assumptions: gc_assume,
-            subs: vec![Sub { id: "gcmodel", quick: 64_000, thorough: 3_200_000 }, Sub { id: "bfs", quick: 8, thorough: 16 }],
+            subs: vec![Sub { id: "gcmodel", quick: 64_000, thorough: 3_200_000 }, Sub { id: "bfs", quick: 8, thorough: 16 }, Sub { id: "gcmodel-fast", quick: 0, thorough: 800_000 }],
         },
         "C03" => Meta {
             level: "exploration",
             rule: "generator profile overwrite-heavy; oracle = after every call, for every present vertex kids() as a set equals the model's last-bind map (one entry per label), kid() agrees for every bound label and for 6 probe labels, v_print's data marker agrees, and every data() result equals the most recent put. Non-trivial: a label was rebound or a datum overwritten, and a group died while observed vertices survived.",
             assumptions: gc_assume,
-            subs: vec![Sub { id: "gcmodel", quick: 48_000, thorough: 3_200_000 }],
+            subs: vec![Sub { id: "gcmodel", quick: 48_000, thorough: 3_200_000 }, Sub { id: "gcmodel-fast", quick: 0, thorough: 800_000 }],
         },
         "C04" => Meta {
             level: "exploration",
             rule: "generator profile readd-heavy; oracle = (i) add on a model-absent id yields a present vertex with no kids, no data marker, no data on later reads, others unchanged; (ii) add on a present id leaves the complete observation unchanged and deleting all such adds from the history leaves the whole observation trace (to the end of the epilogue) unchanged; (iii) add never panics. Non-trivial: the history re-adds a grouped vertex or a recycled id with stale content, and a group died.",
             assumptions: gc_assume,
-            subs: vec![Sub { id: "gcmodel", quick: 48_000, thorough: 3_200_000 }],
+            subs: vec![Sub { id: "gcmodel", quick: 48_000, thorough: 3_200_000 }, Sub { id: "gcmodel-fast", quick: 0, thorough: 800_000 }],
         },
         "C05" => Meta {
             level: "exploration",
             rule: "generator profile allocator-heavy (next_id with/without add, adds ahead of/behind the allocator, collections, clone, merge, script variables); oracle = every returned id is below the capacity, absent at that moment and never returned before in this lineage; ids created by merge/script were never returned before. next_id is only generated while an absent id at or above the allocator position remains. Non-trivial: >=2 next_id calls plus a collection, clone, merge or explicit add.",
             assumptions: gc_assume,
-            subs: vec![Sub { id: "gcmodel", quick: 64_000, thorough: 3_200_000 }],
+            subs: vec![Sub { id: "gcmodel", quick: 64_000, thorough: 3_200_000 }, Sub { id: "gcmodel-fast", quick: 0, thorough: 800_000 }],
         },
         "C06" => Meta {
             level: "exploration",
             rule: "per history: k in 0..=13 long-lived groups (each holding an unread datum) are created first; then T create-fill-read cycles (quick 40..300, thorough 40..3000) run over a rotating window of ids so that ids and group slots are recycled; each cycle builds one group of 2..6 vertices with binds, puts, overwriting puts, harmless mid-cycle reads and re-puts in a generated interleaving (puts before and after binding), then reads everything (some twice); up to min(14-k, capacity/6) cycles overlap in time under a generated schedule; drain epilogue with simultaneous probing of every free group slot at the end. Oracle: keys() equals the reference model's alive set after every call and no call panics (so every cycle's vertices are gone when the model says so, and a new group can be formed whenever fewer than 14 are alive). Non-trivial (from the statement): >=15 groups were collected in one history (the 14 usable slots have wrapped). The occupied-slot count from the hook is compared with the model only as a recorded diagnostic.",
             assumptions: &["reference model (harness/src/model.rs)", "N in 1..=16, capacity 8..256", "build with debug assertions and overflow checks"],
-            subs: vec![Sub { id: "cycles", quick: 2_400, thorough: 9_600 }],
+            subs: vec![Sub { id: "cycles", quick: 2_400, thorough: 9_600 }, Sub { id: "cycles-fast", quick: 0, thorough: 2_400 }],
         },
         "C07" => Meta {
             level: "exploration",
@@ -182,7 +182,7 @@ pub fn run_sub(
     let seed = seed32(verif_seed, &format!("{prop}/{sub}"), worker);
     let max_shrink = 3000;
     match (prop, sub) {
-        ("C01" | "C02" | "C03" | "C04" | "C05", "gcmodel") => {
+        ("C01" | "C02" | "C03" | "C04" | "C05", "gcmodel" | "gcmodel-fast") => {
             let e = GcEngine::for_prop(leak(prop));
             campaign(&e, tier, seed, cases, known, inflight, max_shrink)
         }
@@ -194,7 +194,7 @@ pub fn run_sub(
             r
         }
         ("C07", "asan-seq" | "msan-seq") => campaign(&AsanEngine, tier, seed, cases, known, inflight, 400),
-        ("C06", "cycles") => campaign(&CyclesEngine { max_cycles: if tier == Tier::Quick { 300 } else { 3000 } }, tier, seed, cases, known, inflight, 300),
+        ("C06", "cycles" | "cycles-fast") => campaign(&CyclesEngine { max_cycles: if tier == Tier::Quick { 300 } else { 3000 } }, tier, seed, cases, known, inflight, 300),
         ("C08", "twin") => campaign(&TwinEngine { kind: TwinKind::SaveLoad }, tier, seed, cases, known, inflight, max_shrink),
         ("C09", "prefixes") => campaign(&PrefixEngine { all_prefixes: tier == Tier::Thorough }, tier, seed, cases, known, inflight, 100),
         ("C10", "twin") => campaign(&TwinEngine { kind: TwinKind::Clone }, tier, seed, cases, known, inflight, max_shrink),
@@ -222,10 +222,10 @@ pub fn run_sub(
 /// Re-run a replay payload (concrete level) without any generator.
 pub fn replay(prop: &str, engine: &str, payload: &Value) -> Result<Option<Failure>, String> {
     match (prop, engine) {
-        ("C01" | "C02" | "C03" | "C04" | "C05", "gcmodel") => Ok(GcEngine::for_prop(leak(prop)).replay(payload)),
+        ("C01" | "C02" | "C03" | "C04" | "C05", "gcmodel" | "gcmodel-fast") => Ok(GcEngine::for_prop(leak(prop)).replay(payload)),
         ("C02", "bfs") => Ok(BfsEngine { shard: 0, of: 1, depth: 0, drain_every: 1 }.replay(payload)),
         ("C07", "asan-seq" | "msan-seq") => Ok(AsanEngine.replay(payload)),
-        ("C06", "cycles") => Ok(CyclesEngine { max_cycles: 3000 }.replay(payload)),
+        ("C06", "cycles" | "cycles-fast") => Ok(CyclesEngine { max_cycles: 3000 }.replay(payload)),
         ("C08", "twin") => Ok(TwinEngine { kind: TwinKind::SaveLoad }.replay(payload)),
         ("C09", "prefixes") => Ok(PrefixEngine { all_prefixes: true }.replay(payload)),
         ("C10", "twin") => Ok(TwinEngine { kind: TwinKind::Clone }.replay(payload)),
@@ -244,13 +244,13 @@ pub fn replay(prop: &str, engine: &str, payload: &Value) -> Result<Option<Failur
 /// Re-run a generator-level case (used for crash reproduction from an in-flight file).
 pub fn run_case(prop: &str, engine: &str, case: &Value) -> Result<Option<Failure>, String> {
     match (prop, engine) {
-        ("C01" | "C02" | "C03" | "C04" | "C05", "gcmodel") => {
+        ("C01" | "C02" | "C03" | "C04" | "C05", "gcmodel" | "gcmodel-fast") => {
             let e = GcEngine::for_prop(leak(prop));
             let c = serde_json::from_value(case.clone()).map_err(|e| e.to_string())?;
             Ok(e.run(&c).failure)
         }
         ("C07", "asan-seq" | "msan-seq") => Ok(AsanEngine.run(&serde_json::from_value(case.clone()).map_err(|e| e.to_string())?).failure),
-        ("C06", "cycles") => Ok(CyclesEngine { max_cycles: 3000 }.run(&serde_json::from_value(case.clone()).map_err(|e| e.to_string())?).failure),
+        ("C06", "cycles" | "cycles-fast") => Ok(CyclesEngine { max_cycles: 3000 }.run(&serde_json::from_value(case.clone()).map_err(|e| e.to_string())?).failure),
         ("C08", "twin") => Ok(TwinEngine { kind: TwinKind::SaveLoad }.run(&serde_json::from_value(case.clone()).map_err(|e| e.to_string())?).failure),
         ("C09", "prefixes") => Ok(PrefixEngine { all_prefixes: true }.run(&serde_json::from_value(case.clone()).map_err(|e| e.to_string())?).failure),
         ("C10", "twin") => Ok(TwinEngine { kind: TwinKind::Clone }.run(&serde_json::from_value(case.clone()).map_err(|e| e.to_string())?).failure),
